@@ -44,13 +44,12 @@ def _hash_tree(h, root, rels):
                     h.update(os.path.relpath(fp, root).encode())
                     h.update(open(fp, "rb").read())
 
-def tree_key(extra=""):
+def tree_key(extra=None):
     """content hash of everything a cached stage result depends on"""
     h = hashlib.sha256()
     _hash_tree(h, REPO, ["src", "Cargo.toml", "Cargo.lock", "build.rs", "data", "python", "scripts", "pyproject.toml"])
     _hash_tree(h, VERIF, ["spec", "harness/src", "harness/Cargo.toml", "harness/.cargo", "bin", "known_findings.json"])
-    h.update(extra.encode())
-    return h.hexdigest()[:24]
+    return "tree-" + h.hexdigest()[:24]
 
 def run(cmd, cwd=None, env=None, timeout=None, check=True, capture=True):
     e = dict(os.environ)
@@ -103,11 +102,13 @@ def cached(key, name, fn):
     r["_cache_hit"] = False
     return r
 
-def prune_cache(keep=3):
+def prune_cache(keep=4):
+    """bound disk use: keep the most recent `keep` tree-keyed and spec-keyed cache directories"""
     root = os.path.join(WORK, "cache")
     if not os.path.isdir(root):
         return
-    ds = sorted((os.path.getmtime(os.path.join(root, d)), d) for d in os.listdir(root))
     import shutil
-    for _, d in ds[:-keep]:
-        shutil.rmtree(os.path.join(root, d), ignore_errors=True)
+    for prefix in ("tree-", "spec-"):
+        ds = sorted((os.path.getmtime(os.path.join(root, d)), d) for d in os.listdir(root) if d.startswith(prefix))
+        for _, d in ds[:-keep]:
+            shutil.rmtree(os.path.join(root, d), ignore_errors=True)
